@@ -30,12 +30,14 @@ HARNESSES += [
     H('get_len_icf_code', ['C01'], A, HUFFMAN_H, enforce='get_len_icf_code', also=['C05', 'C15'],
       timeout=300, expect=['postcondition'], min_obligations=3),
     H('get_dist_code', ['C17', 'C01'], A, HUFFMAN_H, enforce='get_dist_code', also=['C05', 'C15', 'C18'],
-      timeout=300, expect=['postcondition', 'assertion'], replay=('huff.c', 'get_dist_code')),
+      timeout=300, expect=['postcondition', 'assertion'], replay=('huff.c', 'get_dist_code'),
+      note='the well-formed dist_table entry it requires is the postcondition of create_packed_dist_table (harness of that name)'),
     H('compute_dist_code', ['C17', 'C01'], A, HUFFMAN_H, enforce='compute_dist_code',
       also=['C05', 'C15', 'C18'], timeout=300, expect=['postcondition', 'assertion'],
       replay=('huff.c', 'compute_dist_code')),
     H('get_len_code', ['C01'], A, HUFFMAN_H, enforce='get_len_code', also=['C05', 'C15', 'C18'],
-      timeout=300, expect=['postcondition']),
+      timeout=300, expect=['postcondition'],
+      note='the well-formed len_table entry it requires is the postcondition of create_packed_len_table (harness of that name)'),
     H('compare258', ['C01'], A, HUFFMAN_H, enforce='compare258', also=['C05', 'C15', 'C17'], timeout=600,
       object_bits=8,
       expect=['postcondition', 'loop_invariant_step', 'loop_decreases'], replay=('huff.c', 'compare258')),
@@ -77,7 +79,7 @@ HARNESSES += [
       bounds='run_len <= 316 = LIT_LEN+DIST_LEN (contract precondition); repeat-6 loop unwound 53 times with unwinding '
              'assertion: complete for that domain (measured 1040 s)'),
     H('create_hufftables_icf_frame', ['C18'], B, HC, enforce='create_hufftables_icf', also=['C15', 'C05', 'C01'], timeout=900,
-      solver='cadical', object_bits=10,
+      solver='cadical', object_bits=10, defines=['EXPAND_FRAME_ONLY'],
       replace=['flatten_ll', 'init_heap32', 'gen_huff_code_lens', 'set_huff_codes', 'set_dist_huff_codes', 'rl_encode',
                'create_header', 'expand_hufftables_icf'],
       trusted=['frame-only contracts of flatten_ll, init_heap32, gen_huff_code_lens (NASM heap routines inside), set_huff_codes, '
@@ -93,11 +95,48 @@ HARNESSES += [
     H('rl_encode_small', ['C18'], B, HC, functions=['rl_encode', 'write_rl'], kind='bounded', defines=['RL_NO_HOOKS'], unwind=20, timeout=900,
       loop_contracts=False, expect=['assertion'], min_obligations=4,
       bounds='1..7 code lengths with values 0..15 (runs of at most 7): reference RFC 1951 3.2.7 decoder in the harness'),
+    H('create_packed_len_table', ['C18', 'C01'], B, HC, enforce='create_packed_len_table', also=['C05', 'C15'], timeout=900,
+      object_bits=8, expect=['postcondition', 'loop_invariant_step', 'loop_decreases'],
+      note='discharges the well-formed len_table entry precondition of get_len_code'),
+    H('create_packed_dist_table', ['C18', 'C01'], B, HC, enforce='create_packed_dist_table', also=['C05', 'C15', 'C17'], timeout=900,
+      object_bits=8, expect=['postcondition', 'loop_invariant_step', 'loop_decreases'],
+      bounds='any table length 1..8192 (covers IGZIP_DIST_TABLE_SIZE of both builds)',
+      note='discharges the well-formed dist_table entry precondition of get_dist_code'),
+    H('expand_hufftables_icf', ['C01', 'C18'], B, HC, enforce='expand_hufftables_icf', also=['C05', 'C15'], timeout=900,
+      unwind=33, object_bits=8, solver='cadical', expect=['postcondition'],
+      bounds='none: every loop bound is a constant of the code (21, 5, 4, 2^eb <= 32); unwound with unwinding assertions',
+      note='ICF length token 254+length carries the code of the RFC length symbol followed by the RFC extra-bits value'),
+    H('rl_encode_loop', ['C18'], B, HC, enforce='rl_encode', replace=['write_rl'], defines=['RL_ENCODE_LOOP'], also=['C05', 'C15'],
+      timeout=900, object_bits=8, expect=['postcondition', 'precondition', 'loop_invariant_step', 'loop_decreases'],
+      trusted=['write_rl as a block stub (bookkeeping of covered input positions / consecutive output blocks); what a block contains is '
+               'proved by write_rl_zero / write_rl_nonzero(_316) and the lemma spec_rl_valid'],
+      note='any num_codes <= 316: the write_rl calls tile the input in order with (value of the run, its length)'),
     H('spec_rl_valid', ['C18'], B, HC, timeout=300, expect=['assertion'], min_obligations=6,
       note='lemma: the closed-form greedy run-length coding used as write_rl postcondition is RFC 1951 3.2.7-valid '
            'and expands to exactly run copies of v (prefix-sum witness at an arbitrary position)'),
 ]
 
+# ---- B2. dynamic block header layout (write_bits redirected to a recording model) ------------------------
+HDR = 'igzip/huff_c_hdr.c'
+WB_TRUST = ['write_bits is the recording model hh_write_bits (harness/igzip/huff_c_hdr.c): value-fits-count and count<=56 are asserted, the '
+            'logical bit position advances as in bitbuf2.h, (value,count) of the calls are recorded; that write_bits appends exactly '
+            'value[0..count) is the bit-writer contract of the deflate-frame family']
+HARNESSES += [
+    H('create_huffman_header', ['C18'], HDR, HC, enforce='create_huffman_header', also=['C05', 'C15', 'C01'], timeout=900,
+      object_bits=8, trusted=WB_TRUST, expect=['postcondition', 'loop_invariant_step', 'loop_decreases', 'assertion']),
+    H('create_header', ['C18'], HDR, HC, enforce='create_header', also=['C05', 'C15'], timeout=900, defines=['HDR_CREATE_HEADER'],
+      object_bits=8, replace=['init_heap64', 'gen_huff_code_lens', 'set_huff_codes', 'create_huffman_header'],
+      trusted=['frame-only contracts of init_heap64 / gen_huff_code_lens (NASM heap routines inside) / set_huff_codes; '
+               'create_huffman_header is a checking stub (its full contract is harness create_huffman_header)'],
+      expect=['postcondition', 'precondition', 'loop_invariant_step', 'loop_decreases']),
+]
+
+# ---- B3. arithmetic lemma behind the depth-limiting repair step (fix_code_lens itself: not decided) ------------------------
+FIX = 'igzip/huff_c_fix.c'
+HARNESSES += [
+    H('kraft_step_lemma', ['C18'], FIX, HC, timeout=300, expect=['assertion'], min_obligations=2, loop_contracts=False,
+      note='arithmetic lemma for the repair step of fix_code_lens, depths up to 60'),
+]
 # ---- D1. igzip/igzip.c: window mask, table installation, dictionaries ------------------------------
 LZI = 'igzip/lz_igzip.c'
 IGZIP = ['igzip/igzip.c']
@@ -138,11 +177,44 @@ HARNESSES += [
       defines=['EN_BYTES'], expect=['postcondition', 'loop_invariant_step', 'loop_decreases'],
       bounds='parameter-bounded: at most 4 tokens', note='adds: the 8 bytes at the old write position hold the expected window (measured 685 s)'),
     H('encode_deflate_icf_base', ['C01'], 'igzip/lz_encode.c', ['igzip/encode_df.c'], enforce='encode_deflate_icf_base',
-      also=['C05', 'C15', 'C10'], timeout=1500, object_bits=8, solver='cadical',
+      also=['C05', 'C15', 'C10'], timeout=3000, object_bits=8, solver='cadical', tier='thorough',
       expect=['postcondition', 'loop_invariant_step', 'loop_decreases'],
       bounds='parameter-bounded: at most 4 tokens in the input array (their well-formedness is a 4-way conjunction); '
-             'the loop itself is closed by its contract, output size and bit-buffer state unbounded'),
+             'the loop itself is closed by its contract, output size and bit-buffer state unbounded',
+      note='measured 165-240 s with 12-16 other solver jobs running'),
+    H('encode_deflate_icf_base_2tok', ['C01'], 'igzip/lz_encode.c', ['igzip/encode_df.c'], enforce='encode_deflate_icf_base',
+      entry='h_encode_deflate_icf_base', also=['C05', 'C15', 'C10'], timeout=1500, object_bits=8, solver='cadical', kind='bounded',
+      defines=['EN_MAXTOK=2'], unwind=3, expect=['postcondition', 'assertion'],
+      bounds='at most 2 tokens, loop unwound (quick stand-in for the loop-contract harness encode_deflate_icf_base): the first '
+             'token\'s window is checked by the ghost assertion at the top of the second iteration, the last one by the postcondition'),
 ]
+
+# ---- build-option variants (thorough tier): LONGER_HUFFTABLE (8192-entry dist_table, dcodes[] only for symbols
+#      26..29, window 8 KiB) and the small-window build -DIGZIP_HIST_SIZE=8192 -------------------------------
+import copy
+
+
+def _variant(name, suffix, defs, **kw):
+    h = copy.copy(next(x for x in HARNESSES if x.name == name))
+    h.name = name + suffix
+    h.entry = next(x for x in HARNESSES if x.name == name).entry
+    h.defines = list(h.defines) + defs
+    h.props = list(h.props)
+    h.tier = 'thorough'
+    h.timeout = max(h.timeout, 3000)
+    h.note = (h.note + '; ' if h.note else '') + 'build option ' + ' '.join('-D' + d for d in defs)
+    for k, v in kw.items():
+        setattr(h, k, v)
+    return h
+
+
+_V = []
+for _n in ('get_dist_code', 'compute_dist_code', 'get_len_code', 'get_dist_icf_code', 'convert_dist_to_dist_sym',
+           'convert_length_to_len_sym', 'are_hufftables_useable'):
+    _V.append(_variant(_n, '_longer', ['LONGER_HUFFTABLE']))
+for _n in ('lz_set_dist_mask', 'set_dict', 'process_dict', 'reset_dict', 'get_dist_code', 'compute_dist_code'):
+    _V.append(_variant(_n, '_hist8k', ['IGZIP_HIST_SIZE=8192']))
+HARNESSES += _V
 
 PROP_TEXT = {
     'C17': {
@@ -156,9 +228,9 @@ PROP_TEXT = {
             'isal_deflate_process_dict: isal_deflate_hash_lvl0..3 are NASM routines behind the dispatcher: recorded uninterpreted stub; proved at the '
             'call site: every head of the level\'s table is 0xffff on entry, the routine of the stream\'s level is called exactly once on '
             '(dict->hashtable, table size - 1, index 0, the copied tail, its length); the heads it then sets are not modelled',
-            'distance-symbol maps: dcodes_sizes[sym] <= 15 for the symbol used; get_dist_code: the packed dist_table entry of a short distance is '
-            'well-formed relative to dcodes/dcodes_sizes (create_packed_dist_table is not proved); default build (IGZIP_DIST_TABLE_SIZE 2, '
-            'IGZIP_DECODE_OFFSET 0), not LONGER_HUFFTABLE',
+            'distance-symbol maps: dcodes_sizes[sym] <= 15 for the symbol used; get_dist_code: the packed dist_table entry of a tabulated distance is '
+            'well-formed -- proved by harness create_packed_dist_table for every table length 1..8192; the LONGER_HUFFTABLE build (8192-entry '
+            'table, dcodes[] for symbols 26..29 only) and the -DIGZIP_HIST_SIZE=8192 build are the thorough-tier variants *_longer / *_hist8k',
         ],
         'not_decided': [
             'window bound at the match-emission sites of the portable ICF kernels (isal_deflate_icf_body/finish_hash_hist_base, '
@@ -181,18 +253,31 @@ PROP_TEXT = {
             'set_huff_codes returns a symbol >= 256 for the lit/len alphabet and set_dist_huff_codes a symbol >= 1 (EOB forced non-zero, heap has '
             'two entries) -- assumed',
             'isal_deflate_set_hufftables: "a block is open" is internal_state.state != ZSTATE_NEW_HDR',
+            'create_huffman_header / create_header: write_bits is the recording model hh_write_bits (value fits its count, count <= 56, logical '
+            'position advances as in bitbuf2.h, bytes not stored); code-length code lengths <= 7 and codes < 2^length, run-length symbols <= 18 '
+            'with extra_bits inside 2/3/7 bits, at most 316 of them, HLIT/HDIST <= 29, HCLEN <= 15, 2048-byte header buffer',
+            'create_packed_len_table / create_packed_dist_table / expand_hufftables_icf: every code length <= 15; expand: the entries of symbols '
+            '257..285 hold a 16-bit code and nothing in the extra-bits byte (what set_huff_codes leaves)',
         ],
         'not_decided': [
-            'fix_code_lens (length-limiting repair: Kraft preservation lemma, exit condition, memory safety with the intentional '
-            'code_len_count/heap union overlay): not attempted for lack of time',
+            'fix_code_lens (length-limiting repair): only the arithmetic lemma of one repair step is proved (kraft_step_lemma). Memory '
+            'safety, the exit condition and bounded end-to-end runs were attempted (loop-free bounded harnesses on 4-7 leaves) and do not '
+            'close: every code_len_count[]/tree[] access goes through the 6872-byte union of struct heap_tree and is encoded as a byte '
+            'update of the whole object (> 21 GB); the end-to-end variant additionally hits a CBMC 6.11 defect (member writes lost after a '
+            'whole-object zeroing followed by a write through a uint64_t* alias)',
             'set_huff_codes / set_dist_huff_codes prefix-freeness and rl_encode round trip beyond the stated small bounds (kind=bounded); '
-            'create_huffman_header layout; create_packed_len_table / create_packed_dist_table / expand_hufftables_icf against the RFC (get_len_code '
-            'and get_dist_code are proved relative to a well-formed packed entry); build_heap / build_huff_tree (NASM); isal_create_hufftables '
-            'end to end; "an independent decoder parses the header to exactly those codes"; compression with the table',
+            'rl_encode: proved by loop contract (rl_encode_loop, any num_codes <= 316) as "the write_rl calls tile the input in order with '
+            '(value of the run, its length)"; that the concatenation of the blocks therefore decodes to the input is the composition of that '
+            'statement with write_rl / spec_rl_valid and is not mechanised as one formula (bounded cross-check: rl_encode_small decodes the '
+            'output with a reference decoder); create_header: that the code-length code it builds has lengths '
+            '<= 7 and canonical codes is assumed (frame-only stubs of the heap routines / set_huff_codes); "an independent decoder parses the '
+            'header to exactly those codes" is decided only as: field layout of the header (create_huffman_header, unbounded) + run-length '
+            'symbols valid and expanding to the input (write_rl proved, rl_encode bounded) + canonical codes prefix-free (bounded); '
+            'build_heap / build_huff_tree (NASM); isal_create_hufftables end to end; compression with the table',
         ]},
     'C01': {
         'assumptions': [
-            'encode_deflate_icf_base: at most 4 tokens in the array (their well-formedness -- table indices inside lit_len_table[513] / '
+            'encode_deflate_icf_base (thorough tier; quick stand-in encode_deflate_icf_base_2tok: at most 2 tokens, loop unwound): at most 4 tokens in the array (their well-formedness -- table indices inside lit_len_table[513] / '
             'dist_lit_table[288], dist_extra < 2^extra_bit_count -- is a 4-way conjunction; the loop itself is closed by its contract); '
             'well-formed hufftables_icf: code < 2^length, lit/len length+extra <= 20, distance code length <= 15, extra_bit_count <= 13; the '
             'bit buffer holds fewer than 8 pending bits and nothing above them; the output object is exactly [m_out_start, m_out_end + 8)',
@@ -202,7 +287,6 @@ PROP_TEXT = {
         ],
         'not_decided': [
             'bytes stored by encode_deflate_icf_base in the quick tier (state-only invariant; the 8 stored bytes are the thorough-tier variant); '
-            'expand_hufftables_icf (ICF length code 254+length is the format definition of encode_df.h); the match finders and their LZ77 '
-            'state invariants; everything listed as not decided in DESIGN.md C01',
+            'the match finders and their LZ77 state invariants; everything listed as not decided in DESIGN.md C01',
         ]},
 }
